@@ -64,8 +64,10 @@ LEMMA StepInv == Inv /\ [ANext]_avars => Inv'
     BY <2>5, <2>6, <2>7 DEF Inv
 <1>7. ASSUME NEW t \in Threads, NEW r \in Nat, Ret(t, r) PROVE Inv'
   BY <1>7 DEF Inv, TypeInv, Ret, Idle, States
+<1>8. ASSUME NEW t \in Threads, WaitFail(t) PROVE Inv'
+  BY <1>8 DEF Inv, TypeInv, WaitFail, States
 <1> QED
-  BY <1>1, <1>2, <1>3, <1>4, <1>5, <1>6, <1>7 DEF ANext, Internal
+  BY <1>1, <1>2, <1>3, <1>4, <1>5, <1>6, <1>7, <1>8 DEF ANext, Internal
 
 THEOREM Safety == ASpec => [](AbsTypeOK /\ OneQueue)
 <1>1. ASpec => []Inv
